@@ -43,3 +43,13 @@ C((_,[0],{k0:#I0})) ||| CREATE (:L0 {k0: 0})
 U([#I10,#I20],v0);MG((v1,[0],{k0:#I0}),[p(v1,k0,#I1),p(v1,k1,v0)],[p(v1,k0,#I1),p(v1,k1,v0)])|R(v0,v1) ||| UNWIND [10, 20] AS v0 MERGE (v1:L0 {k0: 0}) ON CREATE SET v1.k0 = 1, v1.k1 = v0 ON MATCH SET v1.k0 = 1, v1.k1 = v0 RETURN v0 AS c0, v1 AS c1
 U([#I5,#I6,#I7],v0);MG((v1,[1],{k0:#I0}),[p(v1,k1,#I0)],[p(v1,k1,add(v1.k1,#I1))]) ||| UNWIND [5, 6, 7] AS v0 MERGE (v1:L1 {k0: 0}) ON CREATE SET v1.k1 = 0 ON MATCH SET v1.k1 = (v1.k1 + 1)
 U([#I1,#I2],v0);MG((v1,[2],{k0:#I0}),[],[]);WI([v1,v0],{});D(1,v1) ||| UNWIND [1, 2] AS v0 MERGE (v1:L2 {k0: 0}) WITH v1, v0 DETACH DELETE v1
+!reset
+# 7. relationship-level writes on a multigraph (class of the seeded change C04-c): three parallel :T0 relationships, one of
+#    them deleted by a property filter; the siblings must stay visible in both directions; then id reuse elsewhere.
+C((v1,[0],{k0:#I1}),(v2,[1],{k0:#I2}),(v3,[2],{k0:#I3}),(v1,[],{})>0{k0:#I1}>(v2,[],{}),(v1,[],{})>0{k0:#I2}>(v2,[],{}),(v1,[],{})>0{k0:#I3}>(v2,[],{})) ||| CREATE (v1:L0 {k0: 1}), (v2:L1 {k0: 2}), (v3:L2 {k0: 3}), (v1)-[:T0 {k0: 1}]->(v2), (v1)-[:T0 {k0: 2}]->(v2), (v1)-[:T0 {k0: 3}]->(v2)
+MR(v1,[0],v2,0,v3,[1]);W(eq(v2.k0,#I2));D(0,v2) ||| MATCH (v1:L0)-[v2:T0]->(v3:L1) WHERE (v2.k0 = 2) DELETE v2
+MR(v1,[0],v2,999,v3,[1])|R(v2.k0) ||| MATCH (v1:L0)-[v2]->(v3:L1) RETURN v2.k0 AS c0
+MR(v1,[0],v2,0,v3,[1])|R(v2.k0) ||| MATCH (v3:L1)<-[v2:T0]-(v1:L0) RETURN v2.k0 AS c0
+MN(v1,[2],{});MN(v3,[1],{});C((v1,[],{})>1{k0:#I9}>(v3,[],{})) ||| MATCH (v1:L2) MATCH (v3:L1) CREATE (v1)-[:T1 {k0: 9}]->(v3)
+MR(v1,[0],v2,999,v3,[1])|R(v2.k0) ||| MATCH (v1:L0)-[v2]->(v3:L1) RETURN v2.k0 AS c0
+MR(v1,[2],v2,999,v3,[1])|R(v2.k0) ||| MATCH (v3:L1)<-[v2]-(v1:L2) RETURN v2.k0 AS c0
